@@ -266,6 +266,13 @@ def check_kernel(ctx, cls, tab, mode, sinks):
             else:
                 ctx.violation("C01.a NF-KERNEL", key, loc, "evaluate does not return an array", found=repr(v))
             continue
+        # ------------------------------------------------ empty batch: nothing to score, an array without rows
+        if _empty_batch(p):
+            shp = v.shape
+            cols = NF.const(1) if multivariate else Pdim
+            ok0 = shp is not None and len(shp) == 2 and (lift(shp[0]).as_const() == 0 or nf_equal(lift(shp[0]), lift(K))) and nf_equal(lift(shp[1]), lift(cols))
+            ctx.check(ok0, "C01.c SHAPE-COLS", key + "|empty-batch", loc, "a fast path for an empty batch of cuts returns an array without rows and with the cost's number of columns", found=repr(shp), expected=f"(0, {cols!r})", nontrivial=False)
+            continue
         # ------------------------------------------------ value
         if multivariate:
             code_nf, st = _rowwise_value(ctx, ex, v, key, loc)
@@ -507,6 +514,26 @@ def _sign_test(c, v):
     return "pd" if v else "nonpd"
 
 
+def _empty_batch(p):
+    """the path is the one of an EMPTY batch: a fact of the path says that the number of cuts is zero (`len(starts) == 0`,
+    `cuts.shape[0] == 0`, `starts.size < 1` ...).  No row is scored on such a path; what it may return is an array without
+    rows."""
+    for c, v in p.facts:
+        t = getattr(c, "t", None)
+        if not t or t[0] != "cmp":
+            continue
+        op, nf = t[1], t[2]
+        if op == "==0" and v and (nf_equal(nf, lift(K)) or nf_equal(nf, -lift(K))):
+            return True
+        if op == "<0" and v and nf_equal(nf, lift(K) - 1):  # k < 1
+            return True
+        if op == "<0" and not v and nf_equal(nf, -lift(K)):  # not (0 < k)
+            return True
+        if op == "<=0" and v and nf_equal(nf, lift(K)):  # k <= 0
+            return True
+    return False
+
+
 def _must_raise_nonpd(ctx, paths, key, loc):
     rule = "C01.a NONPD-RAISES"
     seen = 0
@@ -520,6 +547,8 @@ def _must_raise_nonpd(ctx, paths, key, loc):
         ctx.violation(rule, key, loc, "no branch tests the sign of the covariance determinant: a non-positive-definite slice is scored silently")
     # conversely, every returning path has taken the positive branch of the sign test (no shortcut around it)
     for k, p in enumerate(q for q in paths if q.outcome == "return"):
+        if _empty_batch(p):
+            continue  # no cut, no slice, no determinant (the returned array has no rows: NF-KERNEL empty-batch)
         pos = "pd" in [_sign_test(c, v) for c, v in p.facts]
         side = [repr(c)[:60] for c, v in p.facts if not _has_det(c.key)][-2:]
         ctx.check(pos, rule, key + f"|return#{k}", loc, "a value is returned only after the determinant sign test came out positive" if pos else "a returning path bypasses the determinant sign test: a degenerate (non-positive-definite) slice gets a finite or -inf cost instead of RuntimeError", found=f"path facts {side}", expected="det_sign > 0 decided on every returning path")
